@@ -65,16 +65,34 @@ def spawn(prop, tier, seed, shard, nshards, budget, max_cases, out, hashseed, on
                             stderr=subprocess.STDOUT, text=True)
 
 
-def run_shards(prop, tier, seed, nshards, budget, max_cases, only=None, hashseeds=None):
+def spawn_piggyback(prop, tier, seed, out, only=None):
+    env = dict(os.environ)
+    env["PYTHONHASHSEED"] = "0"
+    env["PYTHONPATH"] = VERIF + os.pathsep + env.get("PYTHONPATH", "")
+    env.setdefault("OMP_NUM_THREADS", "1")
+    env.setdefault("OPENBLAS_NUM_THREADS", "1")
+    cmd = [sys.executable, "-m", "rv.worker", prop, "--tier", tier, "--seed", str(seed), "--out", out, "--piggyback"]
+    if only:
+        cmd += ["--only", only]
+    return subprocess.Popen(cmd, env=env, cwd=VERIF, stdout=subprocess.PIPE, stderr=subprocess.STDOUT, text=True)
+
+
+def run_shards(prop, tier, seed, nshards, budget, max_cases, only=None, hashseeds=None, piggyback=False,
+               piggy_only=None):
     tmp = tempfile.mkdtemp(prefix=f"rv-{prop}-")
     procs = []
     results = []
     try:
+        if piggyback:
+            out = os.path.join(tmp, "piggyback.json")
+            procs.append(("piggyback", out, spawn_piggyback(prop, tier, seed, out, piggy_only)))
+            if piggy_only:
+                nshards = 0
         for i in range(nshards):
             out = os.path.join(tmp, f"shard{i}.json")
             hs = hashseeds[i] if hashseeds else (0 if tier == "quick" else i)
             procs.append((i, out, spawn(prop, tier, seed, i, nshards, budget, max_cases, out, hs, only)))
-        deadline = time.time() + 3 * budget + 120
+        deadline = time.time() + 3 * budget + (900 if piggyback else 120)
         for i, out, p in procs:
             try:
                 stdout, _ = p.communicate(timeout=max(5, deadline - time.time()))
@@ -117,8 +135,9 @@ def merge(results):
             m["fatal"].append({k: r.get(k) for k in ("shard", "fatal", "stdout")})
             if "evaluations" not in r:
                 continue
-        m["shards_ok"] += 1
-        m["hashseeds"].append(r.get("hashseed"))
+        if r.get("shard") != "piggyback":
+            m["shards_ok"] += 1
+            m["hashseeds"].append(r.get("hashseed"))
         m["evaluations"] += r["evaluations"]
         for c, v in r["classes"].items():
             d = m["classes"].setdefault(c, [0, 0, 0])
@@ -156,8 +175,11 @@ def merge(results):
                 m["reach_branches"].setdefault(k, None)
             else:
                 m["reach_branches"][k] = max(m["reach_branches"].get(k) or 0, v)
+        if "piggyback" in r:
+            m["piggyback"] = r["piggyback"]
         m["time_capped"] += 1 if r.get("time_capped") else 0
-        m["exhausted_by_shard"].append(set(r.get("exhausted", [])))
+        if r.get("shard") != "piggyback":
+            m["exhausted_by_shard"].append(set(r.get("exhausted", [])))
     return m
 
 
@@ -165,9 +187,10 @@ def write_replay(prop, tier, seed, v):
     os.makedirs(replay_dir(), exist_ok=True)
     case = v.get("case") or {}
     tag = hashlib.sha1((v["kind"] + str(case)).encode()).hexdigest()[:8]
-    path = os.path.join(
-        replay_dir(), f"{prop}-s{seed}-{case.get('cls', 'x')}-{case.get('index', 'x')}-{tag}.json"
-    )
+    import re
+
+    idx = re.sub(r"[^A-Za-z0-9_.-]+", "_", str(case.get("index", "x")))[-80:]
+    path = os.path.join(replay_dir(), f"{prop}-s{seed}-{case.get('cls', 'x')}-{idx}-{tag}.json")
     with open(path, "w") as f:
         json.dump(
             {
@@ -277,6 +300,7 @@ def decide(prop, tier, seed, mod, m, wall, single_case=False):
         "shards": {"ok": m["shards_ok"], "fatal": m["fatal"], "time_capped": m["time_capped"],
                    "hashseeds": m["hashseeds"]},
         "exhaustive_classes_completed": exhaustive_done,
+        "piggyback": m.get("piggyback", "not run in this tier"),
         "verdict": {0: "held", 1: "violated", 2: "inconclusive"}[code],
         "inconclusive_reasons": reasons,
     }
@@ -307,6 +331,7 @@ def main(argv=None):
     ap.add_argument("--shards", type=int, default=None)
     ap.add_argument("--budget", type=float, default=None)
     ap.add_argument("--max-cases", type=int, default=None)
+    ap.add_argument("--piggyback", action="store_true", help="also run the repository's own tests under the monitors")
     a = ap.parse_args(argv)
     prop = a.prop
     seed = int(os.environ.get("VERIF_SEED", "0") or 0)
@@ -318,8 +343,12 @@ def main(argv=None):
         with open(a.replay) as f:
             rp = json.load(f)
         case = rp["case"]
-        res = run_shards(prop, rp.get("tier", "quick"), rp["seed"], 1, 600, 1,
-                         only=f"{case['cls']}:{case['index']}", hashseeds=[rp.get("hashseed", 0)])
+        if case.get("cls") == "pytest":
+            res = run_shards(prop, rp.get("tier", "quick"), rp["seed"], 0, 600, 1, piggyback=True,
+                             piggy_only=case["index"])
+        else:
+            res = run_shards(prop, rp.get("tier", "quick"), rp["seed"], 1, 600, 1,
+                             only=f"{case['cls']}:{case['index']}", hashseeds=[rp.get("hashseed", 0)])
         m = merge(res)
         os.environ.setdefault("VERIF_REPLAY_DIR", tempfile.gettempdir())
         code, lines, ev = decide(prop, rp.get("tier", "quick"), rp["seed"], mod, m, time.time() - t0, single_case=True)
@@ -333,7 +362,9 @@ def main(argv=None):
     budget = a.budget or budget
     max_cases = a.max_cases or max_cases
     nshards = max(1, min(nshards, os.cpu_count() or 1))
-    results = run_shards(prop, a.tier, seed, nshards, budget, max_cases)
+    piggy = (a.tier == "thorough" and getattr(mod, "PIGGYBACK", False) and not os.environ.get("VERIF_NO_PIGGYBACK")) \
+        or a.piggyback
+    results = run_shards(prop, a.tier, seed, nshards, budget, max_cases, piggyback=piggy)
     m = merge(results)
     code, lines, ev = decide(prop, a.tier, seed, mod, m, time.time() - t0)
     os.makedirs(evidence_dir(), exist_ok=True)
